@@ -500,7 +500,7 @@ def merge_strategy(draw):
 
 PHASES = [
     Phase("histories", run_case, strategy=strategy,
-          examples={"quick": 1200, "thorough": 12000}),
+          examples={"quick": 1200, "thorough": 40000}),
     Phase("save_merge_ds", run_merge, strategy=merge_strategy,
-          examples={"quick": 400, "thorough": 4000}),
+          examples={"quick": 400, "thorough": 12000}),
 ]
